@@ -203,6 +203,18 @@ theorem C12_rsi_run {P : Nat} (c : RSICfg) (k0 : Candle ℚ) (hv : RSI.validate 
     ∃ s0 outs s', RSI.init P c k0 = .ok s0 ∧ runM RSI.vals s0 cs = .ok (outs, s') ∧ outs.length = cs.length ∧
       ∀ i (hi : i < outs.length), ∃ v, outs[i] = [v] ∧ 0 ≤ v.value ∧ v.value ≤ 1 := RSI.run_range c k0 hv h1 s1 cs
 
+/-- … and, since the `fix:` that clamps the quotient (91f0f9b), for EVERY kind of average, the overshooting ones included -/
+theorem C12_rsi_run_every_kind {P : Nat} (c : RSICfg) (k0 : Candle ℚ) (hv : RSI.validate c = true)
+    (h1 : validLen P c.ma.kind c.ma.length) (cs : List (Candle ℚ)) :
+    ∃ s0 outs s', RSI.init P c k0 = .ok s0 ∧ runM RSI.vals s0 cs = .ok (outs, s') ∧ outs.length = cs.length ∧
+      ∀ i (hi : i < outs.length), ∃ v, outs[i] = [v] ∧ 0 ≤ v.value ∧ v.value ≤ 1 := RSI.run_range_every_kind c k0 hv h1 cs
+
+/-- a quotient the code clamps (RSI, MoneyFlowIndex: [0, 1]; ChandeMomentumOscillator: [−1, 1]) is in its range for ALL
+    operands — whatever rounding residue the running sums hold, the exact guard value included -/
+theorem C12_clamped_quotient_range (n d κn κd : ℚ) (sc : Scale) (g : List ℚ) (a lo hi : ℚ) (h : lo ≤ hi) (ha : lo ≤ a ∧ a ≤ hi) :
+    lo ≤ (VExp.cquot n d κn κd sc g (some a) lo hi).value ∧ (VExp.cquot n d κn κd sc g (some a) lo hi).value ≤ hi :=
+  cquot_range n d κn κd sc g a lo hi h ha
+
 /-- Bollinger bands over whole streams, from the constructor: no step panics, the centre is the mean and the quantity under
     the square root is the sample variance of the last `avg_size` sources — non-negative at every step, hence
     upper ≥ middle ≥ lower (the bands are `middle ± sigma·sqrt(variance)`, sigma > 0) -/
@@ -303,3 +315,5 @@ end Yata.C12
 #print axioms Yata.C12.C12_channels_order_run
 #print axioms Yata.C12.C12_adx_run
 #print axioms Yata.C12.C12_adx_input_unit
+#print axioms Yata.C12.C12_rsi_run_every_kind
+#print axioms Yata.C12.C12_clamped_quotient_range
